@@ -280,6 +280,17 @@ def check_tree(case, ctx, rng, m, X, kind, depth, suffix):
     except Exception as e:
         ctx.hit("predict_leaves")
         ctx.violation(K + "predict_leaves/raised/%s" % type(e).__name__ + S, "%s: %s" % (type(e).__name__, e), cfg=cfg)
+    # the same batch object refilled in place
+    try:
+        buf = Q.copy()
+        predict_leaves(m, buf)
+        buf[:] = Q[::-1]
+        ctx.hit("predict_leaves.buffer_refilled")
+        if not numpy.array_equal(numpy.asarray(predict_leaves(m, buf)), m.apply(buf)):
+            ctx.violation(K + "predict_leaves/differs-from-apply/buffer-refilled-in-place" + S, "predict_leaves on an "
+                          "array refilled in place answers for its previous content", cfg=cfg)
+    except Exception as e:
+        ctx.violation(K + "predict_leaves/raised/%s" % type(e).__name__ + S, str(e)[:150], cfg=cfg)
     # tree_leave_index == {i: children_left[i] == -1}
     leaves = [int(i) for i in numpy.where(t.children_left == -1)[0]]
     try:
